@@ -281,7 +281,8 @@ class CHECK(Check):
                 continue
             aliases = by_id[id(visits[k][0])]     # every slot through which this very object is reachable: all must receive the replacement
             tree = copy.deepcopy(root)
-            marker = A.Identifier('__marker__')
+            # the returned node rotates through kinds that container code may take for "nothing" (empty tuple, 0, '', NULL)
+            marker = (A.Identifier('__marker__'), A.Tuple(items=[]), A.Constant(0), A.Constant(''), A.NullConstant())[k % 5]
             cnt = [0]
 
             def cb2(node, **kw):
